@@ -458,6 +458,23 @@ def run(ctx, chk):
         chk.ok('C16.5', 'order', sample={'order': 'copy loop, then IO::run_clock_cycles'})
     else:
         chk.fail('C16.5', 'order', 'IO::run_clock_cycles is not the last call on every path', file, None)
+    # ---- rule 7: time reaches the devices only through the wrapper that also advances the DMA
+    chk.rule('C16.7', 'D', 'every advance of emulated time passes through MemoryAreas::run_clock_cycles: the device tick '
+             'IO::run_clock_cycles is called from nowhere else, in either configuration (a caller that ticks the devices '
+             'directly would freeze a transfer in flight)', floor=2)
+    for cfg in ('default', 'jit'):
+        pg = ctx.program(cfg)
+        if IRC not in pg.fns or MRC not in pg.fns:
+            chk.error('C16.7: %s / %s not found in the %s configuration' % (IRC, MRC, cfg))
+            continue
+        cs = sorted(set(c[0] for c in pg.callers(IRC)))
+        okc = families(pg, [MRC])
+        stray = [c for c in cs if c not in okc]
+        if cs and not stray:
+            chk.ok('C16.7', cfg, sample={'callers of IO::run_clock_cycles': cs})
+        else:
+            chk.fail('C16.7', cfg, 'IO::run_clock_cycles is called from %s: emulated time advances there without advancing an '
+                     'OAM DMA transfer in flight' % (stray or 'nowhere'), pg.fns[stray[0]]['file'] if stray else file, None)
     # ---- rule 6: asserts, with the lemma's bounds supplied for the loop counters
     def sf(t):
         if lemma and Xs is not None and t == Xs:
